@@ -17,21 +17,21 @@ TOL = 1e-10
 
 def space(tier):
     q = tier == 'quick'
-    return {'orders': [1, 2, 3] if q else [1, 2, 3, 4], 'dims': [1, 2] if q else [1, 2, 3], 'ranks': [1, 2, 3, 5],
+    return {'orders': [1, 2, 3] if q else [1, 2, 3, 4, 5], 'dims': [1, 2] if q else [1, 2, 3], 'ranks': [1, 2, 3, 5] if q else [1, 2, 3, 5, 7],
             'families': ['gauss', 'lowrank', 'int'], 'dtype': ['real', 'complex']}
 
 
 def cases(tier):
     q = tier == 'quick'
-    for d in ([1, 2, 3] if q else [1, 2, 3, 4]):
-        dims = [1, 2] if (q or d == 4) else [1, 2, 3]
-        rk = [1, 2, 3, 5] if d < 4 else [1, 2, 5]
+    for d in ([1, 2, 3] if q else [1, 2, 3, 4, 5]):
+        dims = [1, 2] if (q or d >= 4) else [1, 2, 3]
+        rk = [1, 2, 3, 5] if (q or d == 4) else ([1, 2, 3, 5, 7] if d < 4 else [1, 2, 3])
         for rows in itertools.product(dims, repeat=d):
-            for cols in itertools.product(dims if d < 3 or q else [1, 2], repeat=d):
+            for cols in itertools.product((dims if d < 3 or q else [1, 2]) if d < 5 else [1], repeat=d):
                 for r in rank_vectors(d, rk):
                     for c in (False, True):
                         for fam in ('gauss', 'lowrank', 'int'):
-                            if d == 4 and fam == 'int':
+                            if d >= 4 and fam == 'int':
                                 continue
                             yield {'rows': list(rows), 'cols': list(cols), 'r': r, 'c': c, 'fam': fam}
 
